@@ -59,6 +59,8 @@ def all_ops(rng, alpha, s_len_hint=4):
     ops = [
         "ins %x %d" % (ch() if rng.random() < 0.9 else 0x61, rng.choice([0, 1, 1, 1, 2, 3])),
         "yank %s %d" % (st(), rng.choice([0, 1, 1, 2, 3])),
+        # yank_pop with ANY size: larger than the cursor offset, inside a character, zero (LineBuffer's API is public)
+        "yankpop %d %s" % (rng.choice([0, 1, 1, 2, 3, 4, 5, 7, 9, 65535]), st()),
         "mb %d" % n(), "mf %d" % n(), "bs0", "be", "home", "end", "eoi",
         "del %d" % n(), "bsp %d" % n(), "kl", "kb", "dl", "db", "tc",
         "mpw %s %d" % (rng.choice(WORDS), n()), "dpw %s %d" % (rng.choice(WORDS), n()),
@@ -200,6 +202,8 @@ def c03_oracle(case, out):
         rp = replay(buf, ev)
         if rp is None or rp != utf8(nb):
             return "notifications of `%s` replayed on the old text do not give the new text" % op
+        if name == "yankpop" and r == "none" and (nb != buf or npos != pos or ev):
+            return "`%s` was refused but changed the text, the cursor or notified the listener" % op
         if name in ("ins", "yank", "upd") and cap < 4096 and blen(buf) <= cap and blen(nb) > cap:
             return "`%s` exceeded the capacity %d" % (op, cap)
         buf, pos = nb, npos
